@@ -50,8 +50,17 @@ def gen_case(rng, d, kind):
         msgs = []
         nerr = rng.choice([0, 1, 1, 1, 2])
         if kind in ("undefined", "warnings"):
+            # one symbol that is missing for most of the objects and sorts before every other message: each reference is a
+            # report of its own, and the first of them is the link's error
+            if rng.random() < 0.7:
+                src.append(" call missing_000_everywhere")
+                msgs.append(f"Undefined symbol missing_000_everywhere, referenced by \n    {nm}.o")
             for k in range(nerr):
                 sym = f"missing_{rng.choice('abcdefgh')}{rng.randrange(100)}_{nm}"
+                if rng.random() < 0.45:
+                    sym = f"missing_shared{rng.randrange(3)}"        # the same symbol is missing for several objects: every reference is reported
+                    if any(sym + "," in m_ for m_ in msgs):
+                        continue
                 src.append(f" call {sym}")
                 msgs.append(f"Undefined symbol {sym}, referenced by \n    {nm}.o")
         elif kind == "reloc":
@@ -189,9 +198,9 @@ def run(chk, replay=None):
                         if m not in out:
                             chk.violation(f"duplicate symbol {m} is not mentioned in the error (seed {seed})", rep)
                 elif kind == "warnings":
-                    for m in allmsgs:
-                        if out.count(m.split(",")[0]) != 1:
-                            chk.violation(f"warning `{m.split(',')[0]}` printed {out.count(m.split(',')[0])} times (seed {seed})", rep)
+                    for m in allmsgs:           # one warning per (symbol, referencing object)
+                        if out.count(m) != 1:
+                            chk.violation(f"warning `{m}` printed {out.count(m)} times (seed {seed})", rep)
     finally:
         shutil.rmtree(d, ignore_errors=True)
     if items:
